@@ -30,6 +30,8 @@ RULE = (
     ' Part api may ask the same question again after fe.api.df_model_statis'
     "tics and a caller that scribbles on find()'s results have read the his"
     'tory. '
+    ' Part api writes the bounds with a UTC offset in some cases and may ap'
+    'pend further completions before the question is asked again. '
 )
 ASSUMPTIONS = [
     'query bounds are timezone-aware UTC datetimes (what schedule.complete '
